@@ -30,6 +30,7 @@ EXPLANATION = (
     "bit-parallel, e.g. with shifts or subtraction, is evaluated by the analyser's own expression evaluator on 32-bit words "
     "built from a few octet patterns: a disagreement with 'ignore the wildcard bits' is reported as a violation with the "
     "counterexample, sampled agreement proves nothing and ends fail-closed in ANALYSIS-ERROR). R7.6 the numeric settings this property depends on are never tested by truthiness (`x or default`, `if x:`) - 0 is a legal value for them. "
+    "R7.7 who may change an ACL: the mutators are called only by the requests, the scenario loaders and construction (frozen table). "
     "NOT decided: IPv4Address equality itself and "
     "bounded-exhaustive verdict equivalence against a reference filter."
 )
@@ -511,11 +512,54 @@ def r7_5(ctx: Ctx) -> None:
                f"`{unparse(expr)[:90]}`: 8-row per-bit table holds" if not bad else "wildcard matching differs from 'ignore the bits set in the mask'", bad)
 
 
+# who may change the content of an access control list (add_rule / remove_rule / stores into the rule array), one reason each
+ACL_WRITERS = {
+    "AccessControlList.add_rule": "the mutator itself",
+    "AccessControlList.remove_rule": "the mutator itself",
+    "AccessControlList.__init__": "construction: the empty rule array and the implicit rule",
+    "AccessControlList.model_post_init": "construction",
+    "AccessControlList._init_request_manager": "the add_rule / remove_rule requests",
+    "Router.__init__": "construction: built-in ARP / ICMP permits (via _set_default_acl)",
+    "Router._set_default_acl": "the built-in permits, installed once at construction",
+    "Router.from_config": "scenario loader",
+    "Firewall.from_config": "scenario loader",
+    "Firewall.__init__": "construction of the six lists with their built-in permits",
+    "Firewall._set_default_acl": "built-in permits at construction",
+    "WirelessRouter.from_config": "scenario loader",
+    "Router._init_request_manager": "request wiring",
+    "arcd_uc2_network": "example-network builder (module networks.py): builds a network in code instead of from a file",
+    "client_server_routed": "example-network builder (module networks.py)",
+    "OfficeLANAdder.add_nodes_to_net": "node-set builder used by the scenario loader",
+}
+
+
+def r7_7(ctx: Ctx) -> None:
+    """"Adding or removing a rule changes only the addressed position" also needs that nothing else changes the list behind the
+    agent's back: the rule array is written only by the two mutators, and the mutators are called only by the requests, the scenario
+    loaders and construction (a frozen who-may-call table; a caller outside it - an episode set-up hook, a tick - rewrites positions
+    the scenario or the agent filled)."""
+    from ..inventory import call_sites, only_called_from
+    ix = ctx.ix
+    ctx.rule("R7.7", "who may change an ACL: add_rule / remove_rule are called only by the requests, the scenario loaders and construction")
+    n = 0
+    acl = ix.cls("AccessControlList")
+    for cs in call_sites(ix, ["add_rule", "remove_rule", "_set_default_acl"]):
+        if cs.fn is None or not cs.path.startswith("src/primaite/simulator/"):
+            continue
+        n += 1
+        ok = cs.owner in ACL_WRITERS or bool(only_called_from(ix, cs.fn, ACL_WRITERS)) or cs.in_lambda and cs.owner.endswith("_init_request_manager")
+        ctx.record("R7.7", f"{cs.path}::{cs.owner}::calls {unparse(cs.call.func)[:50]}", cs.where, ok,
+                   ACL_WRITERS.get(cs.owner, "inside a function that only the listed writers call") if ok else
+                   "the content of an access control list is changed outside the requests, the loaders and construction")
+    ctx.floor("R7.7", "ACL mutator call sites in the simulator", n, 8)
+
+
 def check(ctx: Ctx) -> None:
     r7_5(ctx)
     r7_1(ctx)
     r7_2(ctx)
     r7_3(ctx)
     r7_4(ctx)
+    r7_7(ctx)
     from .common import falsy_numeric
     falsy_numeric(ctx, "R7.6", r"position", "ACL positions (position 0 is the first rule)")
